@@ -88,8 +88,10 @@ def _check_struct(cls, expected, base_size=0):
     return sizes, table
 
 
-def _recvfrom_const(path, scope: list) -> int:
-    """the integer literal passed to `.recvfrom(...)` inside the named function (class path in `scope`)"""
+def _recvfrom_const(path, scope: list, module_name: str) -> int:
+    """the buffer size passed to `.recvfrom(...)` inside the named function (class path in `scope`): an integer literal, or
+    an expression over module-level names (a named constant, `ctypes.sizeof(...)`), evaluated in the live module"""
+    import importlib
     tree = ast.parse(path.read_text())
     node = tree
     for name in scope:
@@ -97,12 +99,54 @@ def _recvfrom_const(path, scope: list) -> int:
         if len(nxt) != 1:
             raise ValueError(f"{path.name}: cannot find unique {'.'.join(scope)}")
         node = nxt[0]
-    vals = [c.args[0].value for c in ast.walk(node)
-            if isinstance(c, ast.Call) and isinstance(c.func, ast.Attribute) and c.func.attr == "recvfrom"
-            and len(c.args) == 1 and isinstance(c.args[0], ast.Constant) and isinstance(c.args[0].value, int)]
-    if len(vals) != 1:
-        raise ValueError(f"{path.name}:{'.'.join(scope)}: expected exactly one recvfrom(<int literal>), found {vals}")
-    return vals[0]
+    args = [c.args[0] for c in ast.walk(node)
+            if isinstance(c, ast.Call) and isinstance(c.func, ast.Attribute) and c.func.attr == "recvfrom" and len(c.args) == 1 and not c.keywords]
+    if len(args) != 1:
+        raise ValueError(f"{path.name}:{'.'.join(scope)}: expected exactly one recvfrom(<size>), found {[ast.unparse(a) for a in args]}")
+    arg = args[0]
+    if isinstance(arg, ast.Constant):
+        val = arg.value
+    else:
+        if any(isinstance(n, ast.Name) and n.id == "self" for n in ast.walk(arg)):
+            raise ValueError(f"{path.name}:{'.'.join(scope)}: recvfrom({ast.unparse(arg)}) depends on the instance")
+        mod = importlib.import_module(module_name)
+        val = eval(compile(ast.Expression(arg), f"<{path.name}:recvfrom>", "eval"), dict(vars(mod)))
+    if not isinstance(val, int) or isinstance(val, bool) or val <= 0:
+        raise ValueError(f"{path.name}:{'.'.join(scope)}: recvfrom({ast.unparse(arg)}) = {val!r} is not a positive integer")
+    return val
+
+
+def _probe_responder_bufsize() -> int:
+    """the same fact, observed: the size the real `_handle_read` asks its socket for"""
+    import qmi.core.messaging as M
+    seen = []
+
+    class S(FakeDgramSocket):
+        def recvfrom(self, n):
+            seen.append(n)
+            raise BlockingIOError()
+
+    loop, sock = FakeLoop(), S()
+    with quiet():
+        M._UdpResponder(loop, M.MessageRouter("probe", "probe"), sock)
+        cb, args = loop.readers[sock.fileno()]
+        cb(*args)
+    if len(seen) != 1 or not isinstance(seen[0], int) or seen[0] <= 0:
+        raise ValueError(f"_handle_read asked its socket for {seen}")
+    return seen[0]
+
+
+def _responder_bufsize(strict: bool) -> int:
+    probe = _probe_responder_bufsize()
+    try:
+        static = _recvfrom_const(core.REPO / "qmi/core/messaging.py", ["_UdpResponder", "_handle_read"], "qmi.core.messaging")
+    except Exception:
+        if strict:
+            raise
+        return probe
+    if static != probe:
+        raise ValueError(f"recvfrom size: source says {static}, the running code asked for {probe}")
+    return probe
 
 
 NAME_REGEX = r"^[-_a-zA-Z0-9()]+$"
@@ -242,8 +286,9 @@ def read_layout(strict: bool = False) -> tuple[Layout, dict]:
         tagInfoRequest=E.CONTEXT_INFO_REQUEST.value, tagKillRequest=E.CONTEXT_KILL_REQUEST.value,
         tagInfoResponse=E.CONTEXT_INFO_RESPONSE.value,
         enumTags=[m.value for m in E], lookup=lookup, headerSizeof=hsz,
-        responderRecvMax=_recvfrom_const(core.REPO / "qmi/core/messaging.py", ["_UdpResponder", "_handle_read"]),
-        clientRecvMax=_recvfrom_const(core.REPO / "qmi/core/context.py", ["ping_qmi_contexts"]),
+        responderRecvMax=_responder_bufsize(strict),
+        clientRecvMax=(_recvfrom_const(core.REPO / "qmi/core/context.py", ["ping_qmi_contexts"], "qmi.core.context") if strict else
+                       _lenient(lambda: _recvfrom_const(core.REPO / "qmi/core/context.py", ["ping_qmi_contexts"], "qmi.core.context"), 4096)),
         maxObjectNameLen=_object_name_rule() if strict else _lenient(_object_name_rule, 63),
         responderPort=_port_tie() if strict else _lenient(_port_tie, 35999),
         defaultTimeoutTicks=default_timeout_ticks() if strict else _lenient(default_timeout_ticks, 103),
@@ -1331,6 +1376,8 @@ def gen_junk(rng, lay: Layout, valid: bytes) -> tuple[str, bytes]:
     if k == "trunc":
         return k, valid[:rng.randrange(len(valid))]
     if k == "extend":
+        if rng.random() < 0.3:
+            return k, valid + rng.choice([valid, valid[:lay.hdr_size], valid * rng.randint(2, 30)])
         return k, valid + bytes(rng.randrange(256) for _ in range(rng.choice([1, 1, 2, 24, 150])))
     if k == "magic":
         b = bytearray(valid)
@@ -1362,7 +1409,8 @@ def gen_junk(rng, lay: Layout, valid: bytes) -> tuple[str, bytes]:
     if k == "empty":
         return k, b""
     if k == "oversize":
-        n = rng.choice([lay.responderRecvMax - lay.req_size, lay.responderRecvMax - lay.req_size + 1, 5000])
+        n = rng.choice([lay.responderRecvMax - lay.req_size, lay.responderRecvMax - lay.req_size + 1, 4096 - lay.req_size, 4097 - lay.req_size,
+                        5000, 65507 - lay.req_size])
         return k, valid + bytes(max(1, n))
     # valid fields, big-endian header
     return k, valid[:lay.magicSz][::-1] + valid[lay.magicSz:lay.magicSz + lay.tagSz][::-1] + valid[lay.magicSz + lay.tagSz:]
@@ -1504,8 +1552,17 @@ def sys_sessions(rng, lay: Layout, deep: bool) -> list:
     S.append({**base, "dgrams": [dg(good[:n]) for n in range(len(good))] + [dg(good)], "tag": "truncations"})
     ext = list(range(1, 40 if deep else 12)) + [abs(lay.resp_size - lay.req_size) + 1, lay.responderRecvMax - lay.req_size - 1,
                                                 lay.responderRecvMax - lay.req_size, lay.responderRecvMax - lay.req_size + 1, 3 * lay.responderRecvMax]
-    ext = [n for n in ext if n > 0]
+    ext += [lay.req_size, 4096 - lay.req_size, 4097 - lay.req_size, 8192 - lay.req_size, 65507 - lay.req_size]
+    ext = sorted({n for n in ext if n > 0})
     S.append({**base, "dgrams": [dg(good + bytes(n)) for n in ext] + [dg(good)], "tag": "extensions"})
+    # a request followed by another request / by a kill request / by a response / by itself many times, and near-miss lengths
+    kill0 = o_kill(lay, 1, unhx(ts0))
+    resp0 = o_response(lay, 9, unhx(ts0), 7, unhx(ts0), 5, b"x", b"y", 1)
+    tails = [good, kill0, resp0, good * 3, good * 27, b"\xff", good[:1], good[:lay.hdr_size]]
+    S.append({**base, "dgrams": [dg(good + t) for t in tails] + [dg(kill0 + good), dg(resp0 + good), dg(resp0[:lay.req_size]), dg(good + resp0[lay.req_size:])]
+              + [dg(good)], "tag": "request-plus-more"})
+    S.append({**base, "dgrams": [dg((good * 500)[:n]) for n in (lay.req_size - 1, lay.req_size + 1, lay.resp_size, lay.resp_size + 1, 2 * lay.req_size,
+                                                                    4095, 4096, 4097, 8192, 65507)] + [dg(good)], "tag": "near-miss-lengths"})
     # 2. type tags: all small values and everything around the defined ones (all 65536 when deep)
     top = 2 ** (8 * lay.tagSz)
     if deep:
@@ -1640,6 +1697,17 @@ def _shrink_session(lay: Layout, s: dict, sig: str) -> dict:
             dl = cand["dgrams"]
         else:
             i += 1
+    # shorter datagrams, same clause
+    for j, d in enumerate(dl):
+        if "data" not in d:
+            continue
+        raw = unhx(d["data"])
+        for k in (lay.req_size + 1, lay.hdr_size + 1, lay.resp_size + 1, len(raw) // 2):
+            if 0 < k < len(unhx(dl[j]["data"])):
+                cand = dl[:j] + [dict(dl[j], data=hx(raw[:k]))] + dl[j + 1:]
+                if bad(dict(cur, dgrams=cand)):
+                    dl = cand
+                    break
     return dict(cur, dgrams=dl)
 
 
@@ -1809,7 +1877,7 @@ class C18(Prop):
         for s in sys_sessions(rng, lay, deep=not ctx.quick):
             tag = s.pop("tag")
             self._do_session(lay, res, s, batch, [f"sys:{tag.split('/')[0]}"] * len(s["dgrams"]))
-            if tag in ("truncations", "magic-bits", "kill", "workgroup-too-long", "id-bits") or (tag == "kill-lookalike" and len(batch) % 7 == 0):
+            if tag in ("truncations", "magic-bits", "kill", "workgroup-too-long", "id-bits", "extensions", "request-plus-more") or (tag == "kill-lookalike" and len(batch) % 7 == 0):
                 s2 = dict(s, mode="loop")
                 self._do_session(lay, res, s2, batch, ["loop:" + tag] * len(s["dgrams"]))
             if len(batch) >= 200:
